@@ -194,6 +194,13 @@ static void usual_arith_conv(Node **lhs, Node **rhs) {
   *rhs = new_cast(*rhs, ty);
 }
 
+// xchg and cmpxchg work on scalar objects of 1, 2, 4 or 8 bytes.
+static void check_atomic_operand(Type *ty, Token *tok) {
+  if (ty->kind == TY_STRUCT || ty->kind == TY_UNION || ty->kind == TY_LDOUBLE ||
+      (ty->size != 1 && ty->size != 2 && ty->size != 4 && ty->size != 8))
+    error_tok(tok, "atomic exchange of an object of this type is not supported");
+}
+
 void add_type(Node *node) {
   if (!node || node->ty)
     return;
@@ -321,18 +328,28 @@ void add_type(Node *node) {
     add_type(node->cas_new);
     node->ty = ty_bool;
 
+    // Arrays decay to pointers like in any other argument.
+    if (node->cas_addr->ty->kind == TY_ARRAY)
+      node->cas_addr = new_cast(node->cas_addr, pointer_to(node->cas_addr->ty->base));
+    if (node->cas_old->ty->kind == TY_ARRAY)
+      node->cas_old = new_cast(node->cas_old, pointer_to(node->cas_old->ty->base));
+
     if (node->cas_addr->ty->kind != TY_PTR)
       error_tok(node->cas_addr->tok, "pointer expected");
     if (node->cas_old->ty->kind != TY_PTR)
       error_tok(node->cas_old->tok, "pointer expected");
+    check_atomic_operand(node->cas_addr->ty->base, node->cas_addr->tok);
     // The desired value is converted to the type of the object.
     if (node->cas_addr->ty->base->kind != TY_STRUCT &&
         node->cas_addr->ty->base->kind != TY_UNION)
       node->cas_new = new_cast(node->cas_new, node->cas_addr->ty->base);
     return;
   case ND_EXCH:
+    if (node->lhs->ty->kind == TY_ARRAY)
+      node->lhs = new_cast(node->lhs, pointer_to(node->lhs->ty->base));
     if (node->lhs->ty->kind != TY_PTR)
       error_tok(node->lhs->tok, "pointer expected");
+    check_atomic_operand(node->lhs->ty->base, node->lhs->tok);
     node->ty = node->lhs->ty->base;
     if (node->ty->kind != TY_STRUCT && node->ty->kind != TY_UNION)
       node->rhs = new_cast(node->rhs, node->ty);
